@@ -44,7 +44,7 @@ class C07(GenCheck):
         G = rng.choice([8, 9, 14, 16, 20, 31, 32, 48])
         decls, values = [("ran", "local", "B")], {"ran": 0}
         pvars = []
-        for k in range(rng.randint(1, 3)):
+        for k in range(rng.randint(1, 4)):
             letter = rng.choice(LETTERS)
             fmt = rng.choice(ORDERS) + letter
             n = dsl.fmt_size(fmt)
@@ -61,7 +61,11 @@ class C07(GenCheck):
         for _ in range(rng.randint(1, 5)):
             name, p, fmt = rng.choice(pvars)
             r = rng.random()
-            if r < 0.35:
+            if r < 0.1 and len(pvars) > 1:
+                # one packet variable assigned directly from another (different sizes / byte orders)
+                other = rng.choice([v for v in pvars if v[0] != name])
+                stmts.append(["set", ["v", name], ["v", other[0]]])
+            elif r < 0.35:
                 stmts.append(["set", ["v", rng.choice(locs)[0]], ["v", name]])
             elif r < 0.5:
                 stmts.append(["set", ["v", name], ["c", self.rand_const(rng, fmt)]])
